@@ -563,3 +563,47 @@ def seq_ok_c(c, s):
             if g > ghi or (n - g) > amax:
                 return False
     return True
+
+
+# ------------------------------------------------------------------ intersection score (reference)
+def ref_scores(G, k, has_insertion=True, has_deletion=True):
+    """The arc score used by arc removal, as the pinned library computes it in a fresh process:
+    branches are the sets of end points of all (k-1)-step walks; an arc gets the sizes of the unions
+    of its branch with every sibling branch, with the branch of every arc after it (insertion) and
+    with the branch of its own origin (deletion)."""
+    n = len(G)
+    adj = [[w for w in G[v] if w >= 0] for v in range(n)]
+    depth = k - 1
+    memo = {}
+
+    def leaves(v):
+        if v not in memo:
+            cur = {v}
+            for _ in range(depth):
+                nxt = set()
+                for u in cur:
+                    nxt.update(adj[u])
+                cur = nxt
+            memo[v] = cur
+        return memo[v]
+
+    S = [[0] * 4 for _ in range(n)]
+    for u in range(n):
+        if not adj[u]:
+            continue
+        br = [leaves(w) for w in adj[u]]
+        cols = [w % 4 for w in adj[u]]
+        for i in range(len(br)):
+            for j in range(i + 1, len(br)):
+                sc = len(br[i] | br[j])
+                S[u][cols[i]] += sc
+                S[u][cols[j]] += sc
+        if has_insertion:
+            for i, w in enumerate(adj[u]):
+                for x in adj[w]:
+                    S[u][cols[i]] += len(br[i] | leaves(x))
+        if has_deletion:
+            d = leaves(u)
+            for i in range(len(br)):
+                S[u][cols[i]] += len(br[i] | d)
+    return S
